@@ -125,23 +125,15 @@ type evalObs struct {
 
 func runSched(casesPath, obsPath string) {
 	cases := readCases[schedCase](casesPath)
-	w, err := lib.NewWriter(obsPath)
-	if err != nil {
-		lib.Fatal("%v", err)
-	}
+	w := newLineWriter(obsPath)
 	workers := runtime.NumCPU() / 2
 	if workers < 2 {
 		workers = 2
 	}
 	lib.ParallelMap(len(cases), workers, func(i int) {
-		rec := replaySchedule(cases[i])
-		if err := w.Write(rec); err != nil {
-			lib.Fatal("%v", err)
-		}
+		w.Write(replaySchedule(cases[i]))
 	})
-	if err := w.Close(); err != nil {
-		lib.Fatal("%v", err)
-	}
+	w.Close()
 }
 
 func replaySchedule(sc schedCase) map[string]any {
